@@ -13,8 +13,13 @@ from . import chain as CH   # noqa: E402
 CH.extend(CONTRACTS, CH.readers() + CH.plumbing() + CH.tables() + CH.wrapper())
 
 
-def EXTRA():
+def _EXTRA0():
     # the public entry point hands request, budget and batching options to the function that does the work, on both paths
     from jvc import effects
     return effects.check_option_forwarding(["thejoker.thejoker.TheJoker.iterative_rejection_sample"], PROPERTY,
                                            must_flow=[("max_prior_samples", "iterative_rejection_inmem", "prior_samples_batch")])
+
+
+def EXTRA():
+    from . import chain as _CHX
+    return list(_EXTRA0()) + _CHX.frame_effects(PROPERTY)
